@@ -15,6 +15,8 @@ for f in sorted(glob.glob(os.path.join(ROOT, "out", "seedrun*.txt")), key=os.pat
 rows = []
 for d in sorted(glob.glob(os.path.join(ROOT, "seeded", "*"))):
     name = os.path.basename(d)
+    if name.startswith("_"):
+        continue
     mp = os.path.join(d, "meta.json")
     meta = json.load(open(mp)) if os.path.exists(mp) else {"property": name.split("_")[1] if name.startswith("own") else name.split("_")[0]}
     r = res.get(name, {})
